@@ -451,7 +451,7 @@ def gen_infinite_case(rng, part):
     case = dict(part=part, kind='TFI', model=dict(L=L, J=1.0, g=g, bc_MPS='infinite', conserve=rng.choice([None, 'parity'])))
     if part == 'idmrg':
         case['engine'] = rng.choice(['TwoSiteDMRGEngine', 'SingleSiteDMRGEngine'])
-        case['opts'] = {'mixer': rng.choice([None, True]), 'trunc_params': {'chi_max': rng.choice([4, 8, 16]), 'svd_min': 1e-10},
+        case['opts'] = {'mixer': rng.choice([None, True, 'SubspaceExpansion']), 'trunc_params': {'chi_max': rng.choice([4, 8, 16]), 'svd_min': 1e-10},
                         'max_sweeps': rng.choice([2, 4, 6]), 'min_sweeps': 2, 'N_sweeps_check': rng.choice([1, 2, 2]),
                         'max_trunc_err': None, 'mixer_params': {'amplitude': 1e-4, 'decay': 2.0, 'disable_after': 2}}
         if rng.random() < 0.4:
